@@ -744,21 +744,26 @@ def _check(rep, tier):
             if pred(x):
                 return copy.deepcopy(x)
         raise MachineryError(f"self-test record missing: {what}")
-    b1 = pick(lambda x: x["kind"] == "decl" and x["name"] == "DerOmega", "decl DerOmega")
-    b1["inv"]["factor"] = 1
-    b2 = pick(lambda x: x["kind"] == "sign" and x["name"] == "Omega" and x["sym"] == "TR", "sign Omega TR")
-    b2["sign"] = 1
-    b3 = pick(lambda x: x["kind"] == "cov" and x["name"] == "SS" and x["commader"] == 1, "cov SS")
-    b3["tr"]["factor"] = -1
-    b4 = pick(lambda x: x["kind"] == "decl1", "calculator declaration")
-    b4["t"]["factor"] = -b4["t"]["factor"]
-    corrupt = [b1, b2, b3, b4]
-    if any(x["kind"] == "decl" and x["name"] == "N_MassVel_Vel" for x in recs):
-        b5 = pick(lambda x: x["kind"] == "decl" and x["name"] == "N_MassVel_Vel", "nested declaration")
-        b5["tr"]["factor"] = -b5["tr"]["factor"]          # what "only literal constants count" would declare
-        b6 = pick(lambda x: x["kind"] == "tprod" and x["out"]["factor"] == -1, "tprod")
-        b6["out"]["factor"] = 1
-        corrupt += [b5, b6]
+    corrupt = []
+
+    def corrupted(pred, what, change):
+        """a corrupted copy of one record for the binding self-test; a missing record is a machinery error only while nothing
+        has been reported (a regression may remove the very record: the findings must not be lost)"""
+        try:
+            x = pick(pred, what)
+        except MachineryError:
+            if rep.violations:
+                return
+            raise
+        change(x)
+        corrupt.append(x)
+    corrupted(lambda x: x["kind"] == "decl" and x["name"] == "DerOmega", "decl DerOmega", lambda x: x["inv"].update(factor=1))
+    corrupted(lambda x: x["kind"] == "sign" and x["name"] == "Omega" and x["sym"] == "TR", "sign Omega TR", lambda x: x.update(sign=1))
+    corrupted(lambda x: x["kind"] == "cov" and x["name"] == "SS" and x["commader"] == 1, "cov SS", lambda x: x["tr"].update(factor=-1))
+    corrupted(lambda x: x["kind"] == "decl1", "calculator declaration", lambda x: x["t"].update(factor=-x["t"]["factor"]))
+    # what "only literal constants count" would declare for a nested product / a product of factors given by value
+    corrupted(lambda x: x["kind"] == "decl" and x["name"] == "N_MassVel_Vel", "nested declaration", lambda x: x["tr"].update(factor=-x["tr"]["factor"]))
+    corrupted(lambda x: x["kind"] == "tprod" and x["out"]["factor"] == -1, "tprod", lambda x: x["out"].update(factor=1))
     stv, bad = ftable.validate_records("ParityAlgRec.tla", ftable.REC_CFG, recs + corrupt, "c08" + TAG)
     rep.add_tlc("c08_records", stv)
     rep.add_traces(len(recs))
@@ -766,7 +771,7 @@ def _check(rep, tier):
         if i < len(recs):
             r = recs[i]
             rep.violation(f"recorded_{r['kind']}:{r['name']}:{clauses[0]}", dict(record=r, failing_clauses=clauses))
-    if not all(len(recs) + n in bad for n in range(len(corrupt))):
+    if not all(len(recs) + n in bad for n in range(len(corrupt))) and not rep.violations:       # (with findings the corrupted copy of a wrong record may be right)
         raise MachineryError(f"binding self-test failed: corrupted records accepted ({ {k: v for k, v in bad.items() if k >= len(recs)} })")
     rep.part("binding_selftest", corrupted_records_rejected={str(k - len(recs)): v for k, v in bad.items() if k >= len(recs)})
     if skipped:
